@@ -81,9 +81,10 @@ def cli_case(case):
             args = ["--codemod-include", "pixee:python/numpy-nan-equality,pixee:python/fix-assert-tuple"]
             ids = ["pixee:python/numpy-nan-equality", "pixee:python/fix-assert-tuple"]
         elif kind == "mixed":
-            cms = rng.sample(case["pool"], rng.randint(1, 4))
-            files, _ = e2e.seed_project(rng, seeds, cms, rng.randint(2, 6), rng.choice([None, "requirements.txt", "setup.cfg", "pyproject.toml"]),
-                                        manifest_dir=rng.choice(["", "", "backend/"]))
+            cms = rng.sample(case["pool"], min(len(case["pool"]), rng.randint(1, 4)))
+            cms = cms if "manifest" not in case else list(case["pool"])
+            files, _ = e2e.seed_project(rng, seeds, cms, rng.randint(2, 6), case.get("manifest") or rng.choice([None, "requirements.txt", "setup.cfg", "pyproject.toml"]),
+                                        manifest_dir=case.get("manifest_dir") if "manifest_dir" in case else rng.choice(["", "", "backend/"]))
             files["bad.py"] = "def (:\n"
             files["uni.py"] = "# -*- coding: utf-8 -*-\nnom = 'héllo wörld ✓'\nimport numpy as np\nif nom == np.nan:\n    pass\n"
             e2e.write_project(proj, files)
@@ -123,6 +124,9 @@ def search(ctx):
     cases = [{"kind": "zero-codemods", "seed": 0}, {"kind": "zero-files", "seed": 0}]
     cases += [{"kind": "mixed", "seed": rng.randint(0, 10**9), "pool": POOL} for _ in range(ctx.pick(12, 80))]
     cases += [{"kind": "sast", "seed": rng.randint(0, 10**9)} for _ in range(ctx.pick(8, 40))]
+    # a dependency adder with its manifest in a sub-directory (every run has these, not only the seeds that draw them)
+    for m in ["requirements.txt", "pyproject.toml", "setup.cfg"]:
+        cases.append({"kind": "mixed", "seed": rng.randint(0, 10**9), "pool": ["pixee:python/use-defusedxml"], "manifest": m, "manifest_dir": "backend/"})
     cases += [{"kind": "two-runs", "seed": rng.randint(0, 10**9)} for _ in range(ctx.pick(2, 8))]
     for c, r in zip(cases, impl.pool_map(cli_case, cases)):
         if r[0] != "ok":
